@@ -4,7 +4,7 @@ from lib.common import run_tasks, finish
 
 MOD = 'contracts.statistics_native'
 # number of slices of the input domain of the heavier natives (default 1); errors_* / plain_* are bundled in two tasks
-SLICES = {'quantiles_excl_int': 4, 'quantiles_incl_int': 4, 'mode_unique_int': 4, 'mode_ties_int': 4, 'median_int': 4, 'median_low_int': 4, 'median_high_int': 4,
+SLICES = {'quantiles_excl_int': 4, 'quantiles_incl_int': 4, 'mode_unique_int': 2, 'median_int': 4, 'median_low_int': 4, 'median_high_int': 4,
           'quantiles_excl_fxp': 2, 'quantiles_incl_fxp': 2, 'stdev_fxp': 2, 'pstdev_fxp': 2, 'correlation_fxp': 3, 'covariance_int': 2}
 
 
@@ -13,10 +13,11 @@ def run(tier, seed):
     import contracts.statistics_native as M
     small = [n for n in M.NATIVE if n.startswith(('errors_', 'plain_'))]
     rest = [n for n in M.NATIVE if n not in small]
-    rest.sort(key=lambda n: -SLICES.get(n, 1))                    # heavy ones first: balanced pool
+    # heavy ones first: balanced pool; mode_ties_* is not sliced (one stable witness key for the documented-tie-rule finding)
+    rest.sort(key=lambda n: (not n.startswith('mode_ties'), -SLICES.get(n, 1)))
     tasks = []
     for name in rest:
-        k = SLICES.get(name, 1) * (1 if tier == 'quick' else 3 if name.startswith('quantiles') else 2)
+        k = SLICES.get(name, 1) * (1 if tier == 'quick' or name.startswith('mode_ties') else 3 if name.startswith('quantiles') else 2)
         tasks += [(MOD, 'run_slice', (name, tier, i, k)) for i in range(k)]
     tasks += [(MOD, 'run_group', (small[i::2], tier)) for i in range(2)]
     obs = run_tasks(tasks)
